@@ -144,27 +144,36 @@ Definition s_async_def : text := [97; 115; 121; 110; 99; 32; 100; 101; 102; 32].
 Definition s_test : text := [116; 101; 115; 116; 95].
 
 (** [above]: the lines above the def line, nearest first *)
+(** number of [(] minus number of [)] on a line *)
+Definition net_open (t : text) : Z :=
+  fold_left (fun (d : Z) (c : cp) => if c =? 40 then (d + 1)%Z else if c =? 41 then (d - 1)%Z else d) t 0%Z.
+
 (** [asy]: since fix 1e3dfbe a decorator line mentioning [pytest_asyncio.fixture] counts too (the
-    analyzer has always treated it as a fixture decorator) *)
+    analyzer has always treated it as a fixture decorator).  [ml]: since fix 8c78806 the argument lines
+    of a decorator call that spans several lines are walked over ([pend] = closing parentheses met
+    on the way up that have not found their opening one yet) *)
 Definition s_pytest_asyncio_fixture : text :=
   [112; 121; 116; 101; 115; 116; 95; 97; 115; 121; 110; 99; 105; 111; 46; 102; 105; 120; 116; 117; 114; 101].
-Fixpoint has_fixture_decorator_above_with (asy : bool) (above : list text) : bool :=
+Fixpoint hfda (asy ml : bool) (pend : Z) (above : list text) : bool :=
   match above with
   | [] => false
   | l :: r =>
       let t := trim l in
       match t with
-      | [] => has_fixture_decorator_above_with asy r
-      | _ => if tprefix s_at t
+      | [] => hfda asy ml pend r
+      | _ => let pend' := (pend - net_open t)%Z in
+             if tprefix s_at t
              then (if (match find s_pytest_fixture t with Some _ => true | None => false end)
                       || (asy && match find s_pytest_asyncio_fixture t with Some _ => true | None => false end)
                       || tprefix s_at_fixture t
-                   then true else has_fixture_decorator_above_with asy r)
-             else false
+                   then true else hfda asy ml pend' r)
+             else if ml && (0 <? pend')%Z then hfda asy ml pend' r else false
       end
   end.
-Definition has_fixture_decorator_above := has_fixture_decorator_above_with true.
-Definition has_fixture_decorator_above_old := has_fixture_decorator_above_with false.
+Definition has_fixture_decorator_above_with (asy : bool) := hfda asy true 0%Z.
+Definition has_fixture_decorator_above := hfda true true 0%Z.
+Definition has_fixture_decorator_above_old := hfda false false 0%Z.
+Definition has_fixture_decorator_above_one_line := hfda true false 0%Z.
 
 (** the first occurrence of [pat] that is not the tail of a longer identifier (since fix 7721f5d:
     [scope="..."] is not looked for inside [loop_scope="..."]); [match_indices] yields the
@@ -210,23 +219,26 @@ Definition scope_in_line_with (strict : bool) (t : text) : option (option N) :=
   | None => try s_scope_sq 39
   end.
 Definition scope_in_line := scope_in_line_with true.
-Fixpoint scope_from_text_with (strict : bool) (above : list text) : option N :=
+Fixpoint sft (strict ml : bool) (pend : Z) (above : list text) : option N :=
   match above with
   | [] => None
   | l :: r =>
       let t := trim l in
       match t with
-      | [] => scope_from_text_with strict r
-      | _ => if tprefix s_at t
+      | [] => sft strict ml pend r
+      | _ => let pend' := (pend - net_open t)%Z in
+             if tprefix s_at t || (ml && (0 <? pend')%Z)
              then match scope_in_line_with strict t with
                   | Some res => res
-                  | None => scope_from_text_with strict r
+                  | None => sft strict ml pend' r
                   end
              else None
       end
   end.
-Definition scope_from_text := scope_from_text_with true.
-Definition scope_from_text_old := scope_from_text_with false.
+Definition scope_from_text_with (strict : bool) := sft strict true 0%Z.
+Definition scope_from_text := sft true true 0%Z.
+Definition scope_from_text_old := sft false false 0%Z.
+Definition scope_from_text_one_line := sft true false 0%Z.
 
 Definition net_parens (t : text) : Z :=
   fold_left (fun (d : Z) (c : cp) => if c =? 40 then (d + 1)%Z else if c =? 41 then (d - 1)%Z else d) t 0%Z.
